@@ -85,7 +85,7 @@ let () = iter_lines (fun line ->
       let ops = parse_ops (List.nth fs 3) in
       let ycc3 = nc = 3 in
       let grayout = ycc3 && ocs = 3 in
-      let rgbout = ycc3 && (ocs = 0 || ocs = 1 || ocs = 2) in
+      let rgbout = ycc3 && (ocs = 0 || ocs = 1 || ocs = 2 || ocs = 4) in
       ignore prec;
       match derive_config gen_scale_chain gen_DCTSIZE (zi w) (zi h) zcomps (zi m) (zi 8) fancy ycc3 rgbout grayout gen_fix_h1 gen_fix_h2 gen_fix_h4 gen_fix_h6 with
       | None -> print_endline "err"
